@@ -7,12 +7,39 @@ from ..values import Int, UNIT, Adt, Tup, Seq, Cell, Ptr, Model, usize, opt_none
 from .core import IterModel, SetModel, MapModel, deref, m_iter_next
 
 
+class PtrSeq(object):
+    """element pointers of a (possibly very long) sequence, produced on demand"""
+    __slots__ = ('cell', 'path', 'base', 'n')
+
+    def __init__(self, cell, path, base, n):
+        self.cell = cell
+        self.path = path
+        self.base = base
+        self.n = n
+
+    def __len__(self):
+        return self.n
+
+    def __getitem__(self, i):
+        if isinstance(i, slice):
+            return [Ptr(self.cell, self.path + (self.base + k,)) for k in range(*i.indices(self.n))]
+        if i < 0:
+            i += self.n
+        if not 0 <= i < self.n:
+            raise IndexError(i)
+        return Ptr(self.cell, self.path + (self.base + i,))
+
+    def __iter__(self):
+        for k in range(self.n):
+            yield Ptr(self.cell, self.path + (self.base + k,))
+
+
 class LazyIter(IterModel):
     """source items + adaptor stages applied on demand"""
     __slots__ = ('items', 'pos', 'stages', 'count')
 
     def __init__(self, items, pos=0, stages=(), count=0):
-        self.items = tuple(items)
+        self.items = items if isinstance(items, (tuple, PtrSeq)) else tuple(items)
         self.pos = pos
         self.stages = tuple(stages)
         self.count = count
@@ -51,7 +78,10 @@ def slice_items(it, p):
     """pointer to a sequence (Vec cell or slice window) -> list of element pointers"""
     tgt = it.load(p)
     base = p.win[0] if p.win else 0
-    return [Ptr(p.cell, p.path + (base + i,)) for i in range(len(tgt.fields))]
+    n = len(tgt.fields)
+    if n > 64:
+        return PtrSeq(p.cell, p.path, base, n)
+    return [Ptr(p.cell, p.path + (base + i,)) for i in range(n)]
 
 
 def pull(it, li):
